@@ -502,7 +502,7 @@ def pytest_sessionfinish(session, exitstatus):
                     used_changes += changes[flag]
                     approved_categories.add(flag)
 
-            report_problems(console)
+            reported_problems = report_problems(console)
 
             if used_changes:
                 cr = ChangeRecorder()
@@ -531,6 +531,9 @@ def pytest_sessionfinish(session, exitstatus):
                         state().storage.persist(external_name)
 
                 cr.fix_all()
+
+                # problems which occurred the first time while the files were written
+                report_problems(console, skip=reported_problems)
 
             unused_externals = _find_external.unused_externals()
 
